@@ -191,7 +191,7 @@ class Sess:
         rec = {"kind": "recv", "session": self.label, "op": op, "iter": it, "datagrams": list(datagrams),
                "result": r, "consumed": consumed}
         self.records.append(rec)
-        self.events.append(f"recv,{op},{'-' if it is None else it},{':'.join(hx(d) for d in datagrams) if datagrams else '-'}")
+        self.events.append(f"recv,{op},{'-' if it is None else it},{':'.join(hx(d) for d in datagrams) if datagrams else '.'}")
         self.expect.append(f"{render_result(r)}#{consumed}")
         return rec
 
